@@ -8,7 +8,6 @@ import (
 	"bytes"
 	"encoding/json"
 	"fmt"
-	"go/types"
 	"io"
 	"os"
 	"os/exec"
@@ -150,7 +149,7 @@ func identHelpers() []string {
 	out := []string{}
 	for n, f := range pkgFuncs {
 		t := reflect.TypeOf(f)
-		if t.NumIn() == 0 && t.NumOut() == 1 && types.Universe.Lookup(strings.ToLower(n[:1])+n[1:]) != nil {
+		if t.NumIn() == 0 && t.NumOut() == 1 && isPlainPredeclared(strings.ToLower(n[:1])+n[1:]) {
 			out = append(out, n)
 		}
 	}
